@@ -137,7 +137,9 @@ def record_success(ctx: ExecutionContext) -> None:
 
 def record_cancel(ctx: ExecutionContext) -> None:
     """Record cancellation with circuit breaker (no event emitted)."""
-    if ctx.breaker is not None:
+    if ctx.breaker is not None and not ctx.settled:
+        # A call that already reported its result is not reported again, e.g. when the
+        # hook receiving the event of that report is interrupted.
         ctx.settled = True
         ctx.breaker.record_cancel()
 
